@@ -301,7 +301,7 @@ Definition dns64_cap (b : option Z) (now ttl : Z) : Z :=
   match b with
   | None => ttl
   | Some c => let left := if c - now <? 0 then 0 else c - now in
-              let secs := left / second in
+              let secs := left / dns64_cap_unit in   (* the divisor as written in the source (srcgen) *)
               if secs <? ttl then secs else ttl
   end.
 (* the synthesised TTL: the RFC value capped by the bound every consulted piece
